@@ -464,7 +464,7 @@ class Evaluator:
                 self.trace.curline[elem] = 1 if cdef.form == "lambda" else (
                     2 + (1 if cdef.doc else 0) + (1 if cdef.tick else 0))
                 value = self.ev(cdef.expr, ctx, env)
-            if value is None and cdef.cached:
+            if value is None:       # (cached or not: see KF-C09-1)
                 if not self.m.effective_allow_none(ctx.base, cdef, definer, ctx.dynamic):
                     raise NoneReturnedError(repr(elem))
             self.trace.executed.append(elem)
